@@ -21,8 +21,8 @@ def _tier(tier):
                     covers=[("Runner_nopre_cover.cfg", NOPRE_ROLES, 3, 260, 120), ("Runner_pre_cover.cfg", PRE_ROLES, 2, 420, 160)],
                     random_runs=150)
     return dict(mc=["Runner_nopre.cfg", "Runner_pre.cfg"],
-                covers=[("Runner_nopre_cover.cfg", NOPRE_ROLES, 3, None, 20000), ("Runner_pre_cover.cfg", PRE_ROLES, 2, 6000, 8000)],
-                random_runs=6000)
+                covers=[("Runner_nopre_cover.cfg", NOPRE_ROLES, 3, None, 12000), ("Runner_pre_cover.cfg", PRE_ROLES, 2, 5000, 5000)],
+                random_runs=4000)
 
 
 # (cfg, roles, removed guard)
@@ -39,6 +39,7 @@ ATTACKS = [
 # removing the runner-side prevDecided alone yields no counterexample (the controller reports a decision once): checked in thorough only
 ATTACKS_THOROUGH = [
     ("Runner_attack_noprev.cfg", NOPRE_ROLES, "runner-side prevDecided only (the controller's own check still holds: no counterexample expected)"),
+    ("Runner_attack_noprev_pre.cfg", PRE_ROLES, "runner-side prevDecided only, roles with a pre-consensus phase (no counterexample expected)"),
 ]
 
 
